@@ -6,7 +6,7 @@ import z3
 
 from pyvc import assumed
 from pyvc import lists as L
-from pyvc.contracts import Bool, Const, DictOf, Inst, Opt, Raw, SeqOf, Str, contract
+from pyvc.contracts import Bool, Const, DictOf, Enum, Inst, Opt, Raw, SeqOf, Str, contract
 from pyvc.values import DictObj, ListObj, Obj, Opaque, Ref, Sc, SV, Tup, mk_s, sv_none
 from specs.ghost import abstract_value
 
@@ -80,6 +80,9 @@ class EvaluateFormatConstraints:
     params = dict(self=Inst("FcEvaluator"), condition_keys=_keys())
     raises = {"Exception": None, "NotImplementedError": None}
 
+    returns = DictOf(lambda ex, st, n, i: Str().make(ex, st, n), lambda ex, st, n, i: ex.fresh_sv(n))
+    ghost_inherit = {"ctx": lambda: Opt(Str())}
+
     def post_every_key_gets_its_own_value(self, condition_keys, result, ghost_ctx):
         return all(k in result and result[k] == abstract_value("fc_value", k, ghost_ctx) for k in condition_keys)
 
@@ -112,6 +115,10 @@ class GetHints:
     params = dict(self=Inst("HintsProvider", logger=Raw(lambda ex, st, n: Opaque("logging.logger"))),
                   condition_keys=_keys(), raise_key_error=Bool())
     raises = {"KeyError": "raises_missing_hint", "Exception": None}
+    returns = DictOf(lambda ex, st, n, i: Str().make(ex, st, n),
+                     lambda ex, st, n, i: Inst("Hint", condition_key=Str(), hint=Str(),
+                                               conditions_fulfilled=Raw(lambda e_, s_, n_: e_.enum_member(
+                                                   "ConditionFulfilledValue", "NEUTRAL"))).make(ex, st, n))
 
     def raises_missing_hint(self, condition_keys, raise_key_error):
         return raise_key_error and any(abstract_value("hint_text", k) is None for k in condition_keys)
@@ -151,6 +158,9 @@ class BuildUfcNodes:
     """every format-constraint key gets an UnevaluatedFormatConstraint of its own key, NEUTRAL by class default"""
     params = dict(self=_builder(format_constraints_condition_keys=_keys()))
     raises = {}
+    returns = DictOf(lambda ex, st, n, i: Str().make(ex, st, n),
+                     lambda ex, st, n, i: Inst("UnevaluatedFormatConstraint", condition_key=Str(),
+                                               conditions_fulfilled=Enum("ConditionFulfilledValue")).make(ex, st, n))
 
     def post_every_key_gets_a_neutral_node(self, result):
         return all(k in result and isinstance(result[k], UnevaluatedFormatConstraint) and result[k].condition_key == k
@@ -164,6 +174,9 @@ class BuildRcNodes:
     params = dict(self=_builder(requirement_constraints_condition_keys=_keys()),
                   evaluatable_data=Raw(lambda ex, st, n: Opaque("inst:EvaluatableData")))
     raises = {"Exception": None, "NotImplementedError": None, "TypeError": None}
+    returns = DictOf(lambda ex, st, n, i: Str().make(ex, st, n),
+                     lambda ex, st, n, i: Inst("RequirementConstraint", condition_key=Str(),
+                                               conditions_fulfilled=Enum("ConditionFulfilledValue")).make(ex, st, n))
 
     def post_every_key_gets_its_own_value(self, evaluatable_data, result):
         return all(k in result and isinstance(result[k], RequirementConstraint) and result[k].condition_key == k
@@ -173,3 +186,33 @@ class BuildRcNodes:
     def pre(self, evaluatable_data):
         # the evaluator returns condition states (attrs validator of RequirementConstraint): user-code precondition
         return True
+
+
+@contract(CNB + "_build_hint_nodes", prop=["C04", "C12"])
+class BuildHintNodes:
+    """hands exactly its hint keys to the hints provider and returns exactly what the provider's get_hints returns"""
+    params = dict(self=_builder(hints_condition_keys=_keys()),
+                  evaluatable_data=Raw(lambda ex, st, n: Opaque("inst:EvaluatableData")))
+    raises = {"Exception": None, "NotImplementedError": None, "KeyError": None}
+    returns = DictOf(lambda ex, st, n, i: Str().make(ex, st, n),
+                     lambda ex, st, n, i: Inst("Hint", condition_key=Str(), hint=Str(),
+                                               conditions_fulfilled=Enum("ConditionFulfilledValue")).make(ex, st, n))
+
+    def post_forwards_keys_and_result(self, evaluatable_data, result, ghost_GetHints_condition_keys,
+                                      ghost_GetHints_result):
+        return ghost_GetHints_condition_keys is self.hints_condition_keys and result is ghost_GetHints_result
+
+
+@contract("ahbicht.expressions.format_constraint_expression_evaluation:_build_evaluated_format_constraint_nodes",
+          prop=["C08", "C12"], key="ahbicht.expressions.format_constraint_expression_evaluation:_build_evaluated_format_constraint_nodes#body")
+class BuildEfcNodesBody:
+    """own body: hands exactly its keys to the FC evaluator and returns exactly its mapping"""
+    params = dict(evaluatable_format_constraint_keys=_keys(),
+                  evaluatable_data=Raw(lambda ex, st, n: Opaque("inst:EvaluatableData")))
+    raises = {"Exception": None, "NotImplementedError": None}
+
+    def post_forwards_keys_and_result(evaluatable_format_constraint_keys, evaluatable_data, result,
+                                      ghost_EvaluateFormatConstraints_condition_keys,
+                                      ghost_EvaluateFormatConstraints_result):
+        return ghost_EvaluateFormatConstraints_condition_keys is evaluatable_format_constraint_keys \
+            and result is ghost_EvaluateFormatConstraints_result
